@@ -18,7 +18,7 @@ def base_of_local(p, loc):
     if v is None:
         return None, []
     base, ids = an.peel_posts(v)
-    return nf.Norm(env=p.raw.env)(base), ids
+    return an.norm_of(p)(base), ids
 
 
 def run(ctx, chk):
@@ -128,7 +128,7 @@ def run(ctx, chk):
                     seen_mask = True
                     want = cmp(m, "Lt", c(64))
                     okg = okg and gset(p.guards) == {want}
-                    Np = nf.Norm(env=p.raw.env)
+                    Np = an.norm_of(p)
                     nv = Np(v)
                     exp = ("bin", "BitXor", me, ("bin", "Sub", ("bin", "Shl", I(1, "usize"), m), I(1, "usize")))
                     okg = okg and nv == exp
@@ -136,7 +136,7 @@ def run(ctx, chk):
                     seen_full = True
                     want = cmp(m, "Ge", c(64))
                     okg = okg and gset(p.guards) == {want}
-                    Np = nf.Norm(env=p.raw.env)
+                    Np = an.norm_of(p)
                     okg = okg and Np(v) == ("bin", "BitXor", me, I(18446744073709551615, "usize"))
             chk.ob("G22", "usize::complement", okg and seen_mask and seen_full and len(r) == 2,
                    "1 << m must be computed only when m < 64 (xor with all-ones otherwise); paths: %s" % [p.describe()[:160] for p in r], b["span"], kind="guard-mismatch")
